@@ -239,7 +239,7 @@ class Translator:
             if self.mode != "int":
                 raise TranslateError("xor outside int mode")
             a, b, t = self.unify(a, ta, b, tb, "xor")
-            return f"(Int.xor {a} {b})", INT
+            return f"(pyXor {a} {b})", INT
         if ta == LIT and tb == LIT:
             if isinstance(op, ast.Add):
                 return a + b, LIT
